@@ -39,7 +39,7 @@ for d in sorted(glob.glob(os.path.join(HERE, 'seeded', 'C*', 'm*'))):
         what_it_needs_to_manifest=bullet(notes, 'need', 'trigger', 'needed to manifest') or 'see notes.md',
         why_it_breaks_the_property=bullet(notes, 'why it breaks', 'effect', 'violation') or 'see notes.md',
         tests_run_with_the_patch=bullet(notes, 'tests run', 'tests with patch', 'existing tests', 'tests') or 'see notes.md',
-        round={'m1': 1, 'm2': 1, 'm3': 2, 'm4': 2, 'm5': 3, 'm6': 3, 'm7': 4, 'm8': 4, 'm9': 5, 'm10': 5, 'm11': 6, 'm12': 6, 'm13': 7, 'm14': (9 if pid in ('C02','C03','C05','C07','C09','C13','C14','C17','C18','C19') else 8), 'm15': 10}.get(mk),
+        round={'m1': 1, 'm2': 1, 'm3': 2, 'm4': 2, 'm5': 3, 'm6': 3, 'm7': 4, 'm8': 4, 'm9': 5, 'm10': 5, 'm11': 6, 'm12': 6, 'm13': 7, 'm14': (9 if pid in ('C02','C03','C05','C07','C09','C13','C14','C17','C18','C19') else 8), 'm15': (11 if pid in ('C02','C03','C05','C07','C09','C13','C14','C17','C18','C19') else 10)}.get(mk),
         confirmed_by_us=('demo.py exit status on the clean tree / with patch.diff applied: %s / %s (tools/one_mutation_alt.sh, scratch worktree at /repo HEAD)' % r['demo'] if r and r.get('demo') else 'demo.py exits 0 on the clean worktree and 1 with patch.diff applied') + '; the pinned test files named above keep their outcomes',
         apply='git -C /repo apply /verif/seeded/%s/%s/patch.diff ; undo: git -C /repo checkout -- .   (or, without touching /repo: tools/one_mutation_alt.sh %s %s)' % (pid, mk, pid, mk),
         caught_by='./check %s --tier quick' % pid,
